@@ -725,3 +725,112 @@ _der_axioms2()
 cnf_b = Function('cnf', CFGs, BoolSort())          # the value CFG.is_chomsky() returns (assumed contract; the table specification below does not depend on it)
 @spec('cnf')
 def s_cnf(ev, G): return SV(BOOL, cnf_b(G.z))
+
+
+# ====================================================================== word-level readings of DFA constructions (C14)
+axiom('dfax', 'lemma', 'dhat-app', ForAll([_d, _q, _u, _v], dhat(_d, _q, app(_u, _v)) == dhat(_d, dhat(_d, _q, _u), _v)))
+axiom('dfax', 'lemma', 'Reach1-of-word', ForAll([_d, _S, _q, _v], Implies(And(_v != Word.nil, over(_S, _v)), Select(Reach1(_d, _S, _q), dhat(_d, _q, _v)))))
+r1word = Function('r1word', DeltaD, SetA, Atom, Atom, Word)       # a chosen non-empty word leading from q to a state of Reach1(q)
+axiom('dfax', 'lemma', 'Reach1-has-word', ForAll([_d, _S, _q, _x], Implies(Select(Reach1(_d, _S, _q), _x),
+      Exists([_v], And(_v != Word.nil, over(_S, _v), dhat(_d, _q, _v) == _x)))))
+nap = Function('nap', DeltaD, SetA, Atom, Word, BoolSort())      # nap(delta, F, q0, w): no proper prefix of w is accepted
+_Fs = Const('Fs', SetA)
+axiom('dfax', 'def', 'nap-nil', ForAll([_d, _Fs, _q], nap(_d, _Fs, _q, Word.nil)))
+axiom('dfax', 'def', 'nap-snoc', ForAll([_d, _Fs, _q, _w, _a], nap(_d, _Fs, _q, Word.snoc(_w, _a)) == And(nap(_d, _Fs, _q, _w), Not(Select(_Fs, dhat(_d, _q, _w))))))
+axiom('dfax', 'lemma', 'nap-prefixes', ForAll([_d, _Fs, _q, _w], nap(_d, _Fs, _q, _w) == ForAll([_u], Implies(And(isprefix(_u, _w), _u != _w), Not(Select(_Fs, dhat(_d, _q, _u)))))))
+axiom('dfax', 'lemma', 'Eclo-no-eps', ForAll([_V, _e, _S], Implies(ForAll([_x, _y], Implies(Select(_S, _x), Not(Select(Select(_V, mkKey2(_x, _e)), _y)))), Eclo(_V, _e, _S) == _S)))
+
+
+def np_struct(D, N):
+    """N has the structure dfa_no_prefix gives: D with the transitions leaving accepting states cut (no epsilon moves)"""
+    q, q1, a = fresh_z('q', Atom), fresh_z('q1', Atom), fresh_z('a', Atom)
+    return And(s_dfa_wf(None, D).z, rec_get(N, 'q0').z == rec_get(D, 'q0').z, rec_get(N, 'F').z == rec_get(D, 'F').z, rec_get(N, 'Sigma').z == rec_get(D, 'Sigma').z,
+               Not(Select(rec_get(D, 'Sigma').z, rec_get(N, 'epsilon').z)),
+               ForAll([q, q1, a], Select(Select(nfa_view(N), mkKey2(q, a)), q1) ==
+                      And(Select(rec_get(D, 'Q').z, q), Not(Select(rec_get(D, 'F').z, q)), Select(rec_get(D, 'Sigma').z, a), Select(dfa_delta_val(D), mkKey2(q, a)) == q1)))
+
+
+np_b = Function('np_struct', _DFAs, _NFAs, BoolSort())
+axiom('dfax', 'def', 'np_struct-def', ForAll([_D, _Nn], np_b(_D, _Nn) == np_struct(SV(REC('DFA'), _D), SV(REC('NFA'), _Nn))))
+def _np_sim():
+    D, N = SV(REC('DFA'), _D), SV(REC('NFA'), _Nn)
+    d, q0, Fz = dfa_delta_val(D), rec_get(D, 'q0').z, rec_get(D, 'F').z
+    nh = Nhat(nfa_view(N), _eps(N), rec_get(N, 'q0').z, _w)
+    return ForAll([_D, _Nn, _w, _x], Implies(And(np_b(_D, _Nn), over(rec_get(D, 'Sigma').z, _w)), Select(nh, _x) == And(nap(d, Fz, q0, _w), _x == dhat(d, q0, _w))))
+axiom('dfax', 'lemma', 'noprefix-sim', _np_sim())
+
+
+axiom('dfax', 'lemma', 'dhat-cons', ForAll([_d, _q, _a, _v], dhat(_d, _q, cons(_a, _v)) == dhat(_d, Select(_d, mkKey2(_q, _a)), _v)))
+axiom('dfax', 'lemma', 'rev-over', ForAll([_S, _w], over(_S, rev(_w)) == over(_S, _w)))
+axiom('dfax', 'lemma', 'rev-app', ForAll([_u, _v], rev(app(_u, _v)) == app(rev(_v), rev(_u))))
+axiom('dfax', 'lemma', 'rev-rev', ForAll([_w], rev(rev(_w)) == _w))
+
+
+def rev_struct(D, N):
+    """N has the structure dfa_reverse gives: a new initial state with epsilon moves to D.F, every transition turned round, F = {D.q0}"""
+    q, q1, a = fresh_z('q', Atom), fresh_z('q1', Atom), fresh_z('a', Atom)
+    Q, Sg, Fz = rec_get(D, 'Q').z, rec_get(D, 'Sigma').z, rec_get(D, 'F').z
+    return And(s_dfa_wf(None, D).z, Not(Select(Q, rec_get(N, 'q0').z)), rec_get(N, 'Sigma').z == Sg, Not(Select(Sg, rec_get(N, 'epsilon').z)),
+               ForAll([q], Select(rec_get(N, 'F').z, q) == (q == rec_get(D, 'q0').z)),
+               ForAll([q, q1, a], Implies(Select(Sg, a), Select(Select(nfa_view(N), mkKey2(q1, a)), q) == And(Select(Q, q), Select(Q, q1), Select(dfa_delta_val(D), mkKey2(q, a)) == q1))),
+               ForAll([q, q1], Select(Select(nfa_view(N), mkKey2(q1, rec_get(N, 'epsilon').z)), q) == And(q1 == rec_get(N, 'q0').z, Select(Fz, q))))
+
+
+rev_b = Function('rev_struct', _DFAs, _NFAs, BoolSort())
+axiom('dfax', 'def', 'rev_struct-def', ForAll([_D, _Nn], rev_b(_D, _Nn) == rev_struct(SV(REC('DFA'), _D), SV(REC('NFA'), _Nn))))
+def _rev_sim():
+    D, N = SV(REC('DFA'), _D), SV(REC('NFA'), _Nn)
+    d, Fz, Q = dfa_delta_val(D), rec_get(D, 'F').z, rec_get(D, 'Q').z
+    nh = Nhat(nfa_view(N), _eps(N), rec_get(N, 'q0').z, _w)
+    return ForAll([_D, _Nn, _w, _x], Implies(And(rev_b(_D, _Nn), over(rec_get(D, 'Sigma').z, _w)),
+                  Select(nh, _x) == If(_w == Word.nil, Or(_x == rec_get(N, 'q0').z, Select(Fz, _x)), And(Select(Q, _x), Select(Fz, dhat(d, _x, rev(_w)))))))
+axiom('dfax', 'lemma', 'reverse-sim', _rev_sim())
+
+
+# partial DFAs: the run on w exists iff every transition it needs is defined; L(D) = {w | the run exists and ends in F}
+_dm = Const('dm', ArraySort(Key2, BoolSort()))
+run_ok = Function('run_ok', ArraySort(Key2, BoolSort()), DeltaD, Atom, Word, BoolSort())
+axiom('dfax', 'def', 'run_ok-nil', ForAll([_dm, _d, _q], run_ok(_dm, _d, _q, Word.nil)))
+axiom('dfax', 'def', 'run_ok-snoc', ForAll([_dm, _d, _q, _w, _a], run_ok(_dm, _d, _q, Word.snoc(_w, _a)) == And(run_ok(_dm, _d, _q, _w), Select(_dm, mkKey2(dhat(_d, _q, _w), _a)))))
+
+
+def tot_struct(D, R):
+    """R has the structure dfa_make_total gives for the partial DFA D"""
+    x, a = fresh_z('x', Atom), fresh_z('a', Atom)
+    Q, Sg, dl = rec_get(D, 'Q').z, rec_get(D, 'Sigma').z, rec_get(D, 'delta')
+    Q2, d2 = rec_get(R, 'Q').z, dfa_delta_val(R)
+    return And(s_dfa_pwf(None, D).z, s_dfa_wf(None, R).z, rec_get(R, 'Sigma').z == Sg, rec_get(R, 'q0').z == rec_get(D, 'q0').z, rec_get(R, 'F').z == rec_get(D, 'F').z,
+               ForAll([x], Implies(Select(Q, x), Select(Q2, x))),
+               ForAll([x, a], Implies(Select(map_dom(dl), mkKey2(x, a)), Select(d2, mkKey2(x, a)) == Select(map_val(dl), mkKey2(x, a)))),
+               ForAll([x, a], Implies(And(Select(Q, x), Select(Sg, a), Not(Select(map_dom(dl), mkKey2(x, a)))), Not(Select(Q, Select(d2, mkKey2(x, a)))))),
+               ForAll([x, a], Implies(And(Select(Q2, x), Not(Select(Q, x)), Select(Sg, a)), Select(d2, mkKey2(x, a)) == x)),
+               ForAll([x], Implies(And(Select(Q2, x), Not(Select(Q, x))), Not(Select(rec_get(R, 'F').z, x)))))
+
+
+tot_b = Function('tot_struct', _DFAs, _DFAs, BoolSort())
+_D2 = Const('D2', _DFAs)
+axiom('dfax', 'def', 'tot_struct-def', ForAll([_D, _D2], tot_b(_D, _D2) == tot_struct(SV(REC('DFA'), _D), SV(REC('DFA'), _D2))))
+def _tot_sim():
+    D, R = SV(REC('DFA'), _D), SV(REC('DFA'), _D2)
+    dl = rec_get(D, 'delta'); q0 = rec_get(D, 'q0').z
+    ok = run_ok(map_dom(dl), map_val(dl), q0, _w)
+    return ForAll([_D, _D2, _w], Implies(And(tot_b(_D, _D2), over(rec_get(D, 'Sigma').z, _w)),
+                  And(Select(rec_get(R, 'Q').z, dhat(dfa_delta_val(R), q0, _w)),
+                      If(ok, And(dhat(dfa_delta_val(R), q0, _w) == dhat(map_val(dl), q0, _w), Select(rec_get(D, 'Q').z, dhat(map_val(dl), q0, _w))),
+                         Not(Select(rec_get(D, 'Q').z, dhat(dfa_delta_val(R), q0, _w)))))))
+axiom('dfax', 'lemma', 'total-sim', _tot_sim())
+
+
+@spec('tot_struct')
+def s_tot_struct(ev, D, R): return SV(BOOL, tot_b(D.z, R.z))
+@spec('pdfa_accepts')
+def s_pdfa_accepts(ev, D, w):
+    """acceptance by a partial DFA: the run exists and ends in an accepting state"""
+    dl = rec_get(D, 'delta'); q0 = rec_get(D, 'q0').z
+    return SV(BOOL, And(run_ok(map_dom(dl), map_val(dl), q0, w.z), Select(rec_get(D, 'F').z, dhat(map_val(dl), q0, w.z))))
+@spec('rev_struct')
+def s_rev_struct(ev, D, N): return SV(BOOL, rev_b(D.z, N.z))
+@spec('np_struct')
+def s_np_struct(ev, D, N): return SV(BOOL, np_b(D.z, N.z))
+@spec('nap')
+def s_nap(ev, D, w): return SV(BOOL, nap(dfa_delta_val(D), rec_get(D, 'F').z, rec_get(D, 'q0').z, w.z))
